@@ -4,13 +4,14 @@
      REJECT <family> <seed> <idx> item=<i> line=<lineno> <what the model expected>
      FAULT <family> <seed> <idx> <text>         (harness-side monitors)
    Every scenario, racing ones included (which are not replayed: no windows, no release lines), is also judged
-   by the monitors of coq/srv/SrvMonitors.v (proved sound for every run of the model) on its environment lines
-   and its observation lines:
+   by the monitors of coq/srv/SrvMonitors.v and coq/srv/SrvMonitors2.v (proved sound for every run of the model) on
+   its environment lines and its observation lines (mon_concurrency also takes K from the cfg line):
      REJECT <family> <seed> <idx> monitor <name>                                    *)
 open Common
 module M = Model.SrvModel
 module A = Model.Accept
 module Mon = Model.SrvMonitors
+module Mon2 = Model.SrvMonitors2
 module Msg = Model.Msg
 
 let hx = bytes_of_hexfield
@@ -220,7 +221,14 @@ let () =
             ("mon_start_distinct", Mon.unique_params env, Mon.mon_start_distinct);
             ("mon_gate_after_start", true, Mon.mon_gate_after_start);
             ("mon_barrier", Mon.unique_params env, Mon.mon_barrier);
-            ("mon_reply_once", true, Mon.mon_reply_once) ] in
+            ("mon_reply_once", true, Mon.mon_reply_once);
+            (* C06: never more than Concurrency (the K of the cfg line) handlers executing *)
+            ("mon_concurrency", (!cfg <> None),
+             (fun e o -> match !cfg with Some s0 -> Mon2.mon_concurrency s0.M.c_K e o | None -> true));
+            (* C09: pushed request ids pairwise distinct; final returns of a push at most its calls *)
+            ("mon_push_ids", true, Mon2.mon_push_ids);
+            (* C07: the duplicate-id error only for an id received at least twice *)
+            ("mon_duplicate", true, Mon2.mon_duplicate) ] in
         let nmon = ref 0 in
         let mon_rejected = ref false in
         List.iter (fun (name, hyp, m) ->
